@@ -67,6 +67,11 @@ type stepObs struct {
 	Priv    []byte `json:"priv,omitempty"` // ExportPrivateKey result
 	File    []byte `json:"file,omitempty"` // key file after create / import
 	Mode    uint32 `json:"mode,omitempty"` // permission bits of the key file
+	// FileName: name of the key file inside the signer directory, found by listing the directory after create /
+	// import ("" if the directory does not hold exactly one regular file)
+	FileName string `json:"file_name,omitempty"`
+	// OverExisting: import step only: the destination already held a file (wireCase.Prior > 0)
+	OverExisting bool `json:"over_existing,omitempty"`
 }
 
 type caseObs struct {
@@ -173,12 +178,59 @@ func observe(s signer.Signer, msg []byte, o *stepObs) {
 	o.Sig = sig
 }
 
-func keyFile(dir string) string { return filepath.Join(dir, "signer.json") }
+// keyFileName is the name of the key file inside a signer directory. It is learnt from the code under test: a
+// signer is created once per child process in a scratch directory and the directory is listed. Only if that does not
+// yield exactly one regular file the documented name is assumed.
+var keyFileName string
+
+func learnKeyFileName(scratch string) {
+	if keyFileName != "" {
+		return
+	}
+	keyFileName = "signer.json"
+	dir := filepath.Join(scratch, fmt.Sprintf("name-probe-%d", os.Getpid()))
+	defer os.RemoveAll(dir)
+	func() {
+		defer func() { _ = recover() }()
+		if _, err := file.CreateFileSystemSigner(dir, []byte("c19 name probe")); err != nil {
+			return
+		}
+		if n := onlyFile(dir); n != "" {
+			keyFileName = n
+		}
+	}()
+}
+
+// onlyFile returns the name of the only regular file in dir ("" if there is none or more than one).
+func onlyFile(dir string) string {
+	es, err := os.ReadDir(dir)
+	if err != nil {
+		return ""
+	}
+	name := ""
+	for _, e := range es {
+		if e.Type().IsRegular() {
+			if name != "" {
+				return ""
+			}
+			name = e.Name()
+		}
+	}
+	return name
+}
+
+func keyFile(dir string) string { return filepath.Join(dir, keyFileName) }
 
 func readBack(dir string, o *stepObs) {
-	if b, err := os.ReadFile(keyFile(dir)); err == nil {
+	name := onlyFile(dir)
+	o.FileName = name
+	if name == "" {
+		name = keyFileName
+	}
+	p := filepath.Join(dir, name)
+	if b, err := os.ReadFile(p); err == nil {
 		o.File = b
-		if st, err := os.Stat(keyFile(dir)); err == nil {
+		if st, err := os.Stat(p); err == nil {
 			o.Mode = uint32(st.Mode().Perm())
 		}
 	}
@@ -210,6 +262,7 @@ func doExport(step, dir string, pass []byte) stepObs {
 
 func runCase(dir string, passes [][]byte, c *wireCase) caseObs {
 	out := caseObs{ID: c.ID}
+	learnKeyFileName(dir)
 	pass := func(i int) []byte {
 		if i < 0 || i >= len(passes) {
 			return nil
@@ -281,14 +334,27 @@ func runCase(dir string, passes [][]byte, c *wireCase) caseObs {
 			_ = os.MkdirAll(db, 0o700)
 			_ = os.WriteFile(keyFile(db), prior, 0o600)
 		}
-		im := guarded("import", func(o *stepObs) {
-			if err := file.ImportPrivateKey(db, cp(ex.Priv), cp(q)); err != nil {
-				o.Err = err.Error()
-				return
-			}
-			o.OK = true
-			readBack(db, o)
-		})
+		doImport := func(step, dst string) stepObs {
+			return guarded(step, func(o *stepObs) {
+				if err := file.ImportPrivateKey(dst, cp(ex.Priv), cp(q)); err != nil {
+					o.Err = err.Error()
+					return
+				}
+				o.OK = true
+				readBack(dst, o)
+			})
+		}
+		im := doImport("import", db)
+		im.OverExisting = c.Prior > 0
+		if c.Prior > 0 && !im.OK && im.Panic == "" {
+			// refusing to replace an existing key file is a legitimate answer: the refusal is reported under its own
+			// name and the import is made once more into an empty directory
+			im.Step = "import-over-existing"
+			out.Steps = append(out.Steps, im)
+			db = filepath.Join(dir, fmt.Sprintf("chain-%d-c", c.ID))
+			defer os.RemoveAll(db)
+			im = doImport("import", db)
+		}
 		out.Steps = append(out.Steps, im)
 		if im.OK {
 			out.Steps = append(out.Steps, doLoad("load2", db, q, c.Msg))
